@@ -54,6 +54,9 @@ impl<'a> Remote<'a> {
 
         crate::panic_guard!();
 
+        #[cfg(compio_verif)]
+        crate::verif::sched_point(crate::verif::REMOTE_BEFORE_RESERVE);
+
         // Reserve a pending slot *before* pushing so the consumer's fast-path
         // counter is always an upper bound on the queued items and its
         // `fetch_sub` can never underflow.
@@ -61,6 +64,10 @@ impl<'a> Remote<'a> {
 
         let mut notified = false;
         while shared.sync.push(self.header().id).is_err() {
+            #[cfg(compio_verif)]
+            if notified {
+                crate::verif::sched_point(crate::verif::REMOTE_SPIN_RETRY);
+            }
             if !notified && let Some(ref waker) = shared.waker {
                 waker.wake_by_ref();
                 notified = true;
@@ -73,6 +80,8 @@ impl<'a> Remote<'a> {
                 crate::yield_now()
             }
         }
+        #[cfg(compio_verif)]
+        crate::verif::sched_point(crate::verif::REMOTE_PUSHED);
         if !notified && let Some(ref waker) = shared.waker {
             waker.wake_by_ref();
         }
